@@ -110,8 +110,10 @@ impl Server {
                             u64: handle_ptr,
                         };
                         if unsafe { epoll_ctl(epfd, EPOLL_CTL_ADD, fd, &mut cev) } == -1 {
+                            // the connection cannot be served: release the record AND the socket
                             unsafe {
                                 drop(Box::from_raw(handle_ptr as *mut Handle));
+                                drop(Box::from_raw(stream_ptr));
                             }
                         }
                     }
